@@ -100,6 +100,11 @@ def r2_open_coverage(P, rep, ctx):
     keyed = [c for _, c, b in f.call_sites(f"{rv}.__files__.sort(___)") + f.call_sites("sorted(___)") if kwarg(c, "key") is not None and "patch_index" in norm(kwarg(c, "key"))]
     must(sort if keyed else [], "files are sorted by patch index", "sort of __files__", "_open does not sort the files by patch_index before checking them")
     calls = f.call_sites(f"{rv}._check_ublock(___)")
+    # one loop over all patches 1..n-1 whose hash requirement depends on the index (instead of loop + separate newest check)
+    N = f"len({rv}.__files__)"
+    uni = [n for n in g.nodes if n.kind == "for" and isinstance(n.stmt.target, ast.Name) and f.x(n.stmt.iter) == f"range(1, {N})"]
+    if uni and len(calls) == 2:
+        return _unified_patch_loop(rep, f, fi, g, rv, uni[0], calls, rets, N)
     if len(calls) < 3:
         raise AnalysisError(f"C04.R2: only {len(calls)} _check_ublock calls in _open")
 
@@ -204,6 +209,28 @@ def r2_open_coverage(P, rep, ctx):
               message="_open does not open one container per given path (e.g. files are keyed by patch_index first): a duplicated / forked container is silently dropped instead of making the open fail")
     emp = f.tests(f"not {fi.params[1]}", f"len({fi.params[1]}) == 0")
     rep.check(f.refuses(emp), "C04.R2", fi.qual, "an empty file list is refused", fi.loc(), construct="empty list", message="_open accepts an empty list of containers")
+
+
+def _unified_patch_loop(rep, f, fi, g, rv, loop, calls, rets, N):
+    """_open checks base + `for i in range(1, n): _check_ublock(files[i], ub(i), ub(i-1), H(i))`: H must demand the hash
+    exactly for the patches below the newest one."""
+    lv = loop.stmt.target.id
+    body_nodes = {id(x) for st in loop.stmt.body for x in ast.walk(st)}
+    base = [n for n, c, b in calls if [f.x(a) for a in (M.positional(c) or c.args)][:3] == [f"{rv}.__files__[0].filename", f"{rv}._ublock(0)", "None"]]
+    inl = [(n, c) for n, c, b in calls if g.nodes[n].stmt is not None and id(g.nodes[n].stmt) in body_nodes]
+    ok_shape = bool(base) and len(inl) == 1 and all(f.hit_before(r, nodes=base) for r in rets) and all(f.hit_before(r, nodes=[loop.idx]) for r in rets)
+    rep.check(ok_shape, "C04.R2", fi.qual, "base container and every patch are checked on every path", fi.loc(), construct="_check_ublock for index 0", message="_open does not check the first container / every patch with _check_ublock")
+    if not inl:
+        return
+    n, c = inl[0]
+    a = [f.x_at(n, x) for x in (M.positional(c) or c.args)]
+    ok_args = a[:3] == [f"{rv}.__files__[{lv}].filename", f"{rv}._ublock({lv})", f"{rv}._ublock({lv} - 1)"]
+    rep.check(ok_args and f.hit_before(loop.idx, nodes=[n], src_edge=(loop.idx, "iter")), "C04.R2", fi.qual, "every patch i is checked against its predecessor i-1", fi.loc(c), construct="middle containers check",
+              message="_open does not check every patch with _check_ublock(files[i], ublock(i), ublock(i-1), ..)")
+    h = a[3] if len(a) > 3 else "True"
+    below_newest = {f"{lv} < {N} - 1", f"{lv} != {N} - 1", f"{lv} + 1 < {N}", f"{lv} <= {N} - 2", f"{lv} + 1 != {N}", f"{N} - 1 > {lv}", f"{N} > {lv} + 1", f"{N} - 1 != {lv}"}
+    rep.check(h in below_newest, "C04.R2", fi.qual, "the hash is required for every patch below the newest one and optional (but verified when present) for the newest", fi.loc(c), construct="newest container check",
+              message=f"_open checks patch i with check_hashsum=`{h}`: this does not mean 'every patch except the newest' — " + ("the newest (possibly uncommitted) patch is required to carry a hash, so an interrupted or deliberately uncommitted patch can never be reopened" if h in ("True", f"{lv} < {N}", f"{lv} <= {N} - 1") else "middle patches are accepted without a verified hash"))
 
 
 def r3_subclass(P, rep, ctx):
